@@ -82,6 +82,15 @@ CHECKS = {
          "class, exact equality of overlap and density matrices) and validated against Segment / Unrestrict by TLC.",
     note="shell identity recovered from tagged exponents/coefficients; occupations on a 2^-20 grid",
     technique="TLA+ models (Wavefunction.tla, Orbitals.tla) checked with TLC + TLC validation of recorded conversion calls"),
+ "C16": dict(
+    category="model_checking", design_ref="DESIGN.md section 6 C16",
+    text="TLC explores every interleaving of the steps of 2 (quick) / 3 (thorough) API calls sharing the global tables and checks "
+         "GlobalsFrozen, ResultIsFunctionOfArgs and termination; a pool of ~60-150 API calls (all formats, all operations, "
+         "conversions, failing calls) gets reference outcome digests from one fresh interpreter per call; seeded permutations "
+         "with repetitions in one interpreter (tables digested after every call) and 2..16-thread runs incl. forced two-thread "
+         "alternation at open/write/read/close are validated against the specification: outcome = reference, tables unchanged.",
+    note="all module-level dict/list/tuple/scalar attributes of every iodata module are digested; warnings-module state is not a listed table",
+    technique="TLA+ model (ApiGlobals.tla) checked with TLC + trace validation of sequential histories and thread schedules against fresh-interpreter references"),
 }
 NOT_YET = "check not built yet in this round (planned, see DESIGN.md section 6)"
 
